@@ -318,6 +318,11 @@ def css3_extension(name, text):
         return bool(ok)
     if name == 'outline-style' and info['type'] == 'ident' and info['ident'] == 'auto':
         return True
+    if name == 'overflow':
+        # CSS3 Box: [ visible | hidden | scroll | auto ]{1,2}
+        bits = text.split()
+        if len(bits) == 2 and all(b.lower() in keywords for b in bits):
+            return True
     return False
 
 
